@@ -88,7 +88,7 @@ func diffDump(a, b []string) string {
 // C07 close / re-open preserves content; read-only opens change nothing.
 func C07(c *core.Ctx) {
 	c.Rule("driver histories (commits incl. deletes/expiry/value-log values, flushes, compactions, GC without deletes, managed and normal) stopped in states with an unflushed " +
-		"memtable, pending L0 tables and a value-log tail, then 3-5 close/re-open cycles alternating read-write, read-only and changed compaction settings; the full dump " +
+		"memtable, pending L0 tables and a value-log tail (every third normal-mode history instead ends with a delete-only transaction whose tombstones a compaction had to retain), then 3-5 close/re-open cycles alternating read-write, read-only and changed compaction settings; the full dump " +
 		"(every retained version of every key with value digest/meta/expiry, plus Get and iteration against the model) before Close must equal the dump after Open; around " +
 		"each read-only open + full read session the file tree hash (names, sizes, modes, SHA-256) must be unchanged; thorough tier traces the read-only session with strace " +
 		"and rejects any write-class open/truncate/unlink/rename; distinct = (options, mode, reopen kind sequence) classes")
@@ -112,6 +112,24 @@ func C07(c *core.Ctx) {
 			// leave an unflushed memtable and a vlog tail behind
 			for j := 0; j < 5; j++ {
 				_ = w.RandomCommit(df, df)
+			}
+			if i%3 == 1 && !managed {
+				// ... or, instead, end the history with deletes only, and push their markers through a
+				// compaction that has to keep them (a reader from before the deletes is still open):
+				// the newest versions stored are then retained tombstones in a compacted table
+				w.Flush()
+				w.OpenSnapshot()
+				var specs []drv.WriteSpec
+				for _, j := range w.R.Perm(len(w.Keys))[:3+w.R.Intn(4)] {
+					specs = append(specs, drv.WriteSpec{Key: w.Keys[j], Del: true})
+				}
+				_, _ = w.Commit(specs)
+				w.Flush()
+				for l := 0; l < 2; l++ {
+					w.CompactForce(l, 1)
+				}
+				w.CloseSnapshots()
+				c.Count("reopen.histories_ending_in_compacted_tombstones", 1)
 			}
 			cycles := 3 + w.R.Intn(3)
 			for cy := 0; cy < cycles; cy++ {
